@@ -199,7 +199,9 @@ def main(tier, seed):
     # (segment counts chosen so that sequence numbers of earlier windows collide with that of the last segment: N-1-256j a
     # multiple of the window for some j >= 1)
     longs = [(1, 258, 8), (259, 1, 4), (1, 257, 3), (257, 1, 2)] + (
-        [(1, 600, 127), (300, 300, 16), (1, 260, 3), (1, 301, 4), (1, 513, 2), (513, 1, 1), (1, 515, 3), (261, 1, 4)] if thorough else [])
+        # (each event carries the frames in flight and the wire history: a trace grows with the square of the segment count, and one
+        #  JSON line beyond about 30 MB is more than TLC's deserializer takes -- 600 segments with window 127 were)
+        [(1, 300, 127), (280, 270, 16), (1, 260, 3), (1, 301, 4), (1, 513, 2), (513, 1, 1), (1, 515, 3), (261, 1, 4)] if thorough else [])
     for nq, nr, w in longs:
         rc = tsmlib.rig_cfg(seg=50, nq=nq, nr=nr, pwc=w, pws=w, tapdu=60000, maxsegs=None)
         t = tsmlib.record(rc, limit=20000)
